@@ -27,6 +27,7 @@ import (
 	pdisc "github.com/prometheus/prometheus/discovery"
 	"github.com/prometheus/prometheus/model/labels"
 	pscrape "github.com/prometheus/prometheus/scrape"
+	"k8s.io/client-go/kubernetes/fake"
 
 	"kvassverif/internal/sc"
 	"tkestack.io/kvass/pkg/api"
@@ -281,18 +282,21 @@ type Placement struct {
 
 // Spec describes a world.
 type Spec struct {
-	MaxHead    int64        `json:"maxHead"`
-	MaxProc    int64        `json:"maxProc"`
-	Min        int32        `json:"min"`
-	Max        int32        `json:"max"`
-	Idle       string       `json:"idle"` // "0" | "1ns" | "1000h"
-	NoRelief   bool         `json:"disableAlleviate,omitempty"`
-	Residue    int          `json:"residueRounds"`
-	ReadyDelay int          `json:"readyDelayCycles"`
-	KeepPVC    bool         `json:"keepPVC"`
-	InitShards int          `json:"initShards"`
-	Targets    []TargetSpec `json:"targets"`
-	Initial    []Placement  `json:"initial,omitempty"`
+	MaxHead    int64  `json:"maxHead"`
+	MaxProc    int64  `json:"maxProc"`
+	Min        int32  `json:"min"`
+	Max        int32  `json:"max"`
+	Idle       string `json:"idle"` // "0" | "1ns" | "1000h"
+	NoRelief   bool   `json:"disableAlleviate,omitempty"`
+	Residue    int    `json:"residueRounds"`
+	ReadyDelay int    `json:"readyDelayCycles"`
+	KeepPVC    bool   `json:"keepPVC"`
+	InitShards int    `json:"initShards"`
+	// K8s: the shards are listed and scaled by the real Kubernetes replicas manager on a client-go fake whose
+	// StatefulSet and pods mirror the simulated pods (ordinals above 9 matter: "prom-10" sorts before "prom-2")
+	K8s     bool         `json:"k8s,omitempty"`
+	Targets []TargetSpec `json:"targets"`
+	Initial []Placement  `json:"initial,omitempty"`
 }
 
 // World is a running closed loop.
@@ -311,9 +315,13 @@ type World struct {
 	cancel  context.CancelFunc
 	mu      sync.Mutex
 	scales  []int32 // ChangeScale arguments of the current cycle
-	posts   map[string]int
-	allSync bool
-	Log     []string
+	// K8s mode
+	k8sCli      *fake.Clientset
+	k8sMgr      shard.Manager
+	k8sListings int
+	posts       map[string]int
+	allSync     bool
+	Log         []string
 	// Scraped[shard id][target id] = requests that shard's proxy really made to the target (counted at the farm)
 	Scraped map[string]map[int]int
 	// removal monitor (C07): per ordinal, when the first pod was created and when targets were last seen there
@@ -386,6 +394,9 @@ func (w *World) Shards() ([]*shard.Shard, error) {
 	w.mu.Lock()
 	w.allSync = true
 	w.mu.Unlock()
+	if w.Spec.K8s {
+		return w.k8sShards()
+	}
 	for _, n := range w.nodes {
 		n := n
 		ready := n.readyIn <= 0 && n.unready <= 0
@@ -395,7 +406,24 @@ func (w *World) Shards() ([]*shard.Shard, error) {
 			w.mu.Unlock()
 		}
 		sh := shard.NewShard(n.id, n.apiSrv.URL, ready, sc.Quiet)
+		w.wrapShard(n, sh, "")
+		ret = append(ret, sh)
+	}
+	return ret, nil
+}
+
+// wrapShard installs the fault-injecting wrappers; from != "": the address prefix the shard object uses (a pod
+// IP), which is replaced by the node's real loopback address.
+func (w *World) wrapShard(n *node, sh *shard.Shard, from string) {
+	fix := func(u string) string {
+		if from != "" && strings.HasPrefix(u, from) {
+			return n.apiSrv.URL + strings.TrimPrefix(u, from)
+		}
+		return u
+	}
+	{
 		sh.APIGet = func(u string, ret interface{}) error {
+			u = fix(u)
 			if (n.failStatus > 0 && strings.HasSuffix(u, "/targets/status/")) || (n.failRT > 0 && strings.HasSuffix(u, "/runtimeinfo/")) {
 				w.mu.Lock()
 				w.allSync = false
@@ -414,6 +442,7 @@ func (w *World) Shards() ([]*shard.Shard, error) {
 			return err
 		}
 		sh.APIPost = func(u string, req interface{}, ret interface{}) error {
+			u = fix(u)
 			if strings.HasSuffix(u, "/status/config") && n.staleHash > 0 {
 				return errors.New("injected: configuration push rejected")
 			}
@@ -431,9 +460,7 @@ func (w *World) Shards() ([]*shard.Shard, error) {
 			}
 			return api.Post(u, req, ret)
 		}
-		ret = append(ret, sh)
 	}
-	return ret, nil
 }
 
 // ChangeScale implements shard.Manager: the simulated StatefulSet.
@@ -441,6 +468,15 @@ func (w *World) ChangeScale(n int32) error {
 	w.mu.Lock()
 	w.scales = append(w.scales, n)
 	w.mu.Unlock()
+	if w.Spec.K8s {
+		// the real manager writes the StatefulSet; the controller (this harness) then creates pods or deletes
+		// those with the highest ordinals
+		got, err := w.k8sScale(n)
+		if err != nil {
+			return err
+		}
+		n = got
+	}
 	for int(n) > len(w.nodes) {
 		if err := w.addNode(w.Spec.ReadyDelay); err != nil {
 			return err
